@@ -254,15 +254,16 @@ def handle (args : List String) : String :=
     let flags := ((modeTok.splitOn "/").getD 1 "11").toList
     let fixF1 := flags.getD 0 '1' == '1'
     let fix7a := flags.getD 1 '1' == '1'
-    let fixF3 := flags.getD 2 '0' == '1'
-    let fix7b := flags.getD 3 '0' == '1'
-    let fixF8 := flags.getD 4 '0' == '1'
+    let fixF3 := flags.getD 2 '1' == '1'
+    let fix7b := flags.getD 3 '1' == '1'
+    let fixF8 := flags.getD 4 '1' == '1'
+    let fixF2 := flags.getD 5 '1' == '1'
     match root.toNat?, (do
         let p ← pGPat
         let g ← pGraph
         pure (p, g) : Parser (GPat × Graph)).run rest with
     | some root, some ((p, g), []) =>
-      let E : Env := { p := p, g := g, close := closeQ, fixF1 := fixF1, fixF3 := fixF3, fixF8 := fixF8 }
+      let E : Env := { p := p, g := g, close := closeQ, fixF1 := fixF1, fixF2 := fixF2, fixF3 := fixF3, fixF8 := fixF8 }
       let rm := isTrue rm
       match mode with
       | "impl" =>
